@@ -20,12 +20,13 @@ BOUNDS = (24, 256, 65536)
 CRCS = [(0, 0, 0), (1, 1, 1), (2, 2, 2), (0, 2, 1), (2, 0, 2), (1, 2, 0)]
 EXTS = 5
 
-# the Lean witness of C05_impossible_sends_nothing_counterexample (Props/C05.lean `witness`, MTU 40)
+# Props/C05.lean `witness`, MTU 40: fragmentation impossible. Before fix 9a18e3b (D12) the original went out with
+# its payload deleted; now nothing may be sent (C05_impossible_sends_nothing). Kept as a regression input.
 WITNESS = {'flags': 0, 'crc': 0, 'dest': 'dtn://d/', 'src': 'dtn://s/', 'rpt': None, 'time': 1, 'seq': 0,
            'lifetime': 1000, 'blocks': [{'type': 1, 'num': 1, 'flags': 0, 'crc': 0, 'btsd': bytes(range(64)).hex()}],
            'wire': False}
 WITNESS_MTU = 40
-# witness of C05_layered_counterexample: the same bundle as decoded from the wire, MTU 80
+# the same bundle as decoded from the wire, MTU 80: before the fix it was sent whole (100 octets); now [80, 62]
 WITNESS_WIRE = dict(WITNESS, wire=True)
 WITNESS_WIRE_MTU = 80
 
